@@ -3,7 +3,7 @@
 use crate::exec::{ExecSpec, InputMode};
 use crate::framework::{Scenario, Tier};
 use crate::specgen::{self, benign_io, pick_input_mode, swarm_schedule, CHECK_MODES, VIEW_MODES};
-use crate::trials::{StopKind, Trial};
+use crate::trials::{IsoRole, StopKind, Trial};
 use fpsim_rt::rng::Rng;
 use itsgen::corrupt;
 use itsgen::gen::{gen_arbitrary, gen_conforming, gen_framed_words, GenCfg, Stream};
@@ -27,6 +27,7 @@ pub fn registry() -> Vec<Box<dyn Scenario>> {
         Box::new(RdhWalk),
         Box::new(FsmWalk),
         Box::new(Faults),
+        Box::new(Isolate),
     ]
 }
 
@@ -1943,5 +1944,180 @@ impl Scenario for Faults {
                 k = 0;
             }
         }
+    }
+}
+
+// ------------------------------------------------------------------------------------------------
+// C06
+// ------------------------------------------------------------------------------------------------
+pub struct Isolate;
+
+/// A fault confined to one link that keeps link id, FEE ID and framing consistent.
+fn link_fault(st: &mut Stream, li: usize, rng: &mut Rng) -> &'static str {
+    let n = st.links[li].packets.len();
+    if n == 0 {
+        return "none";
+    }
+    let p = rng.usize_below(n);
+    match rng.below(9) {
+        0 if n > 3 => {
+            st.links[li].packets.remove(p);
+            "packet_loss"
+        }
+        1 => {
+            let c = st.links[li].packets[p].clone();
+            st.links[li].packets.insert(p, c);
+            "packet_duplication"
+        }
+        2 if p + 1 < n => {
+            st.links[li].packets.swap(p, p + 1);
+            "packet_reorder"
+        }
+        3 => {
+            let r = &mut st.links[li].packets[p].rdh;
+            match rng.below(5) {
+                0 => r.pages_counter = r.pages_counter.wrapping_add(1),
+                1 => r.stop_bit ^= 1,
+                2 => r.orbit = r.orbit.wrapping_add(1),
+                3 => r.bc = 0xdec,
+                _ => r.trigger_type |= 1 << 20,
+            }
+            "rdh_field"
+        }
+        _ => {
+            let pk = &mut st.links[li].packets[p];
+            if pk.words.is_empty() {
+                return "none";
+            }
+            let wi = rng.usize_below(pk.words.len());
+            match rng.below(4) {
+                0 => {
+                    let bit = rng.usize_below(80);
+                    pk.words[wi].word[bit / 8] ^= 1 << (bit % 8);
+                    "word_bit_flip"
+                }
+                1 => {
+                    pk.words[wi].word[9] = *rng.pick(&[0x00u8, 0x29, 0xE0, 0xE4, 0xE8, 0xF0, 0xF8, 0x20, 0x43, 0x9A]);
+                    "word_id"
+                }
+                2 => {
+                    pk.words.remove(wi);
+                    pk.fix_sizes();
+                    "word_delete"
+                }
+                _ => {
+                    let w = pk.words[wi].clone();
+                    pk.words.insert(wi, w);
+                    pk.fix_sizes();
+                    "word_duplicate"
+                }
+            }
+        }
+    }
+}
+
+impl Scenario for Isolate {
+    fn property(&self) -> &'static str {
+        "C06"
+    }
+    fn n_cases(&self, tier: Tier) -> u64 {
+        match tier {
+            Tier::Quick => 1_500,
+            Tier::Thorough => 60_000,
+        }
+    }
+    fn rule(&self) -> String {
+        "case = multi-link stream (2..8 links; conforming or with 1..4 faults confined to single links: packet loss / \
+         duplication / reordering, RDH field edits, word bit flips / ID changes / deletions / duplications) in one of \
+         the modes check all, check all its, check all its-stave, check sanity its. For each case: a reference full \
+         run on one merge of the links; a full run on a different merge (contiguous / round-robin / random) of the \
+         same per-link sequences; for one link its physically extracted single-link stream; a filter run (-f / -F / \
+         -s) on the reference stream; ONE SINGLE-THREADED pass of that link's packets through one real \
+         LinkValidator::run on the main thread (no reader, dispatcher or other validators); and the reference stream \
+         with an extra word-level fault on another link. Every pipeline run has its own seeded schedule and capacity \
+         cap. Messages are normalised with the independent walker: each offset (leading, `ending at 0x..`) becomes \
+         (packet index within the link, byte offset within the packet). Oracle: the normalised per-link (per FEE ID \
+         in stave mode) message lists are equal in all settings; a fault on link A changes nothing on links != A. \
+         Non-trivial: >= 5 managed threads in the reference run."
+            .into()
+    }
+    fn make(&self, seed: u64, case: u64, _tier: Tier) -> Trial {
+        let mut rng = Rng::new(seed);
+        let mode_i = [2usize, 3, 4, 1][(case % 4) as usize];
+        let stave = mode_i == 4;
+        let mut cfg = GenCfg::swarm(&mut rng, stave);
+        cfg.n_links = rng.range(2, 8) as usize;
+        let mut st = gen_conforming(&cfg, &mut rng);
+        let mut label = CHECK_MODES[mode_i].join(" ");
+        let nf = if rng.chance(1, 4) { 0 } else { rng.range(1, 4) };
+        for _ in 0..nf {
+            let li = rng.usize_below(st.links.len());
+            let f = link_fault(&mut st, li, &mut rng);
+            label = format!("{label} {f}");
+        }
+        let m1 = *rng.pick(&[itsgen::gen::Merge::Random, itsgen::gen::Merge::RoundRobin, itsgen::gen::Merge::Contiguous]);
+        st.remerge(m1, &mut rng);
+        let reference_bytes = st.bytes();
+        let parts = s(CHECK_MODES[mode_i]);
+        let mk = |input: Vec<u8>, extra: &[String], rng: &mut Rng| -> ExecSpec {
+            let mut p = parts.clone();
+            p.extend(extra.iter().cloned());
+            let im = pick_input_mode(rng);
+            let mut sp = specgen::spec(im, &p, input);
+            if rng.chance(4, 5) {
+                swarm_schedule(&mut sp, rng, 300 + st.total_packets() as u64 * 12);
+            }
+            sp
+        };
+        let mut runs: Vec<(IsoRole, ExecSpec)> = vec![(IsoRole::Reference, mk(reference_bytes.clone(), &[], &mut rng))];
+        // another merge
+        let mut st2 = st.clone();
+        let m2 = loop {
+            let m = *rng.pick(&[itsgen::gen::Merge::Random, itsgen::gen::Merge::RoundRobin, itsgen::gen::Merge::Contiguous]);
+            if m != m1 || m == itsgen::gen::Merge::Random {
+                break m;
+            }
+        };
+        st2.remerge(m2, &mut rng);
+        runs.push((IsoRole::OtherMerge, mk(st2.bytes(), &[], &mut rng)));
+        // one link: extracted, filtered, sequential
+        let li = rng.usize_below(st.links.len());
+        let g: u16 = if stave { st.links[li].fee_id } else { st.links[li].link_id as u16 };
+        let extracted = st.extract_link(li).bytes();
+        if !extracted.is_empty() {
+            runs.push((IsoRole::Extracted(g), mk(extracted.clone(), &[], &mut rng)));
+            let f = match rng.below(3) {
+                0 => Filter::Link(st.links[li].link_id),
+                1 => Filter::Fee(st.links[li].fee_id),
+                _ => Filter::Stave(st.links[li].fee_id),
+            };
+            runs.push((IsoRole::Filtered(g), mk(reference_bytes.clone(), &f.args(), &mut rng)));
+            let mut seq = mk(extracted, &[], &mut rng);
+            seq.seq_pass = true;
+            seq.policy = crate::exec::PolicySpec::Canonical;
+            seq.cap_limit = None;
+            runs.push((IsoRole::Sequential(g), seq));
+        }
+        // extra size-preserving fault on another link, same merge
+        if st.links.len() >= 2 {
+            let a = rng.usize_below(st.links.len());
+            let mut st3 = st.clone();
+            let cands: Vec<usize> =
+                (0..st3.links[a].packets.len()).filter(|&p| !st3.links[a].packets[p].words.is_empty()).collect();
+            if !cands.is_empty() {
+                let p = cands[rng.usize_below(cands.len())];
+                let pk = &mut st3.links[a].packets[p];
+                let wi = rng.usize_below(pk.words.len());
+                if rng.chance(1, 2) {
+                    let bit = rng.usize_below(80);
+                    pk.words[wi].word[bit / 8] ^= 1 << (bit % 8);
+                } else {
+                    pk.words[wi].word[9] = *rng.pick(&[0x00u8, 0x29, 0xE0, 0xE4, 0xE8, 0xF0, 0x9A]);
+                }
+                let ga: u16 = if stave { st3.links[a].fee_id } else { st3.links[a].link_id as u16 };
+                runs.push((IsoRole::CorruptedOther(ga), mk(st3.bytes(), &[], &mut rng)));
+            }
+        }
+        Trial::Isolate { runs, by_fee: stave, label }
     }
 }
